@@ -15,6 +15,7 @@
 #   M7 state 3 + LF: one more byte consumed before returning                        -> smtpd_blast, roundtrip_ref_sender, resume_next_command
 #   M8 commands.c: last byte of every command line stripped, not only CR            -> resume_next_command
 #   M9 qmail-remote.c blast: first dot of a line not stuffed                        -> remote_to_smtpd
+#   M10 straynewline(): flush() removed (451 never reaches the client)              -> smtpd_blast
 from vlib import Obl, Prog
 
 SMTPD = Prog("qmail-smtpd.c", nomain=True)
